@@ -53,13 +53,13 @@ CHECKS = {
     "C04": {
         "level": "exploration",
         "units": [unit("c04-root", "root", ["zz_verif_c04_test.go"], "^TestVerifC04", shards={"quick": 12, "thorough": 16}),
-                  unit("c06-keysizes", "root", ["zz_verif_c06_test.go", "zz_verif_c11_test.go", "zz_verif_c06_keysizes_test.go"], "^TestVerifC06KeySizes$", shards={"quick": 6, "thorough": 6})],
+                  unit("c06-keysizes", "root", ["zz_verif_c06_test.go", "zz_verif_c11_test.go", "zz_verif_c06_keysizes_test.go"], "^TestVerifC06KeySizes$", shards={"quick": 12, "thorough": 12})],
         "assumptions": ["zero-knowledge of the responses themselves is not decidable by enumeration; what is decided is that no hidden value or its hash exponent occurs as a leaf or substring of what the holder sends"],
     },
     "C05": {
         "level": "exploration",
         "units": [unit("c05-root", "root", ["zz_verif_c05_test.go"], "^TestVerifC05", shards={"quick": 12, "thorough": 16}),
-                  unit("c06-keysizes", "root", ["zz_verif_c06_test.go", "zz_verif_c11_test.go", "zz_verif_c06_keysizes_test.go"], "^TestVerifC06KeySizes$", shards={"quick": 6, "thorough": 6})],
+                  unit("c06-keysizes", "root", ["zz_verif_c06_test.go", "zz_verif_c11_test.go", "zz_verif_c06_keysizes_test.go"], "^TestVerifC06KeySizes$", shards={"quick": 12, "thorough": 12})],
         "assumptions": ["math/big ProbablyPrime (Baillie-PSW + Miller-Rabin) decides primality in the reference predicate"],
     },
     "C20": {
@@ -139,7 +139,7 @@ CHECKS = {
         "level": "fault_enumeration",
         "units": [unit("c06-root", "root", ["zz_verif_c06_test.go", "zz_verif_c11_test.go"], "^TestVerifC06", shards={"quick": 16, "thorough": 16}),
                   unit("c06-interleave", "root", ["zz_verif_c06_interleave_test.go"], "^TestVerifC06Interleaved$", shards={"quick": 8, "thorough": 8}),
-                  unit("c06-keysizes", "root", ["zz_verif_c06_test.go", "zz_verif_c11_test.go", "zz_verif_c06_keysizes_test.go"], "^TestVerifC06KeySizes$", shards={"quick": 6, "thorough": 6})],
+                  unit("c06-keysizes", "root", ["zz_verif_c06_test.go", "zz_verif_c11_test.go", "zz_verif_c06_keysizes_test.go"], "^TestVerifC06KeySizes$", shards={"quick": 12, "thorough": 12})],
         "assumptions": ["with a keyshare contribution the commitment proof is completed by the keyshare server; that exchange is C14's"],
     },
     "C14": {
